@@ -3,8 +3,8 @@ CONSTANTS
   MaxEls = 5
   MaxUid = 7
   Depth = 0
-  OpNames = {"AddParagraph", "AddHeadingParagraphWithBookmark", "AddTable", "AddMathFormula", "GenerateTOC", "SetPageMargins", "AddHeader", "RemoveParagraph", "RemoveParagraphAt", "RemoveElementAt", "Read", "AddElement", "AddEndnote"}
-  TxtC = {"tok", "empty"}
+  OpNames = {"AddParagraph", "AddHeadingParagraphWithBookmark", "AddTable", "AddMathFormula", "GenerateTOC", "SetPageMargins", "AddHeader", "RemoveParagraph", "RemoveParagraphAt", "RemoveElementAt", "Read", "AddElement"}
+  TxtC = {"tok"}
   IdxC = {}
 INVARIANTS Inv_Sect Inv_Uids Inv_Ser
 PROPERTIES Act_AppendOnly Act_RemoveExact Act_ReadPure
